@@ -212,7 +212,7 @@ func selected(dbName, collName string) bool {
 
 func runC13(tier string) *vf.Run {
 	run := vf.NewRun("C13", tier, "fault_enumeration")
-	run.Rule = "case = generated start catalog (1-4 databases incl. unselected and tombstoned ones; collections Created/Creating/Dropping/Dropped/tombstoned, older incarnations below newer ones, unselected names, partitions in all states) x one primary catalog write of kind K performed at step boundary B of CollectionReader.StartRead (9 boundaries x 13 kinds: create, flip Creating->Created, add partition, drop, re-create same name, create->tombstone, create+partition, drop partition, new database, two new databases, flip+drop+re-create, default-like partition name, create in unselected) plus 0-2 further writes at random boundaries and an optional pause at a boundary; thorough enumerates every (B,K) for 4 catalogs, quick takes every boundary x {create, add partition} and a seeded spread of the rest. Non-trivial = the primary write was executed at its boundary and the sentinel was delivered by the watch; distinct by (B, K, extra writes, catalog shape)."
+	run.Rule = "case = generated start catalog (1-4 databases incl. unselected and tombstoned ones; collections Created/Creating/Dropping/Dropped/tombstoned, older incarnations below newer ones, unselected names, partitions in all states) x one primary catalog write of kind K performed at step boundary B of CollectionReader.StartRead (9 boundaries x 14 kinds: create, flip Creating->Created, add partition, drop, re-create same name, create->tombstone, create left in Creating, create+partition, drop partition, new database, two new databases, flip+drop+re-create, default-like partition name, create in unselected) plus 0-2 further writes at random boundaries and an optional pause at a boundary; thorough enumerates every (B,K) for 6 start catalogs, quick takes every boundary x {create, add partition} and a seeded spread of the rest. Non-trivial = the primary write was executed at its boundary and the sentinel was delivered by the watch; distinct by (B, K, extra writes, catalog shape)."
 	run.Assumptions = []string{
 		"the catalog writer is the harness' rendering of rootcoord's write order (collection key in state Creating, then fields and partitions, then state Created; drop = state Dropping, later tombstones for partitions, fields and finally the collection key; create->tombstone for a failed create), taken from etcd_op.go and etcd_op_test.go",
 		"catalogs keep rootcoord's invariants (ids and create times grow with creation, one live incarnation per name, non-default partitions only below Created collections)",
@@ -257,12 +257,12 @@ func runC13(tier string) *vf.Run {
 		run.Floor(fmt.Sprintf("create_at_%d_%s", b, boundaryNames[b]), 1)
 		run.Floor(fmt.Sprintf("addpart_at_%d_%s", b, boundaryNames[b]), 1)
 	}
-	run.Floor("cases_decided", run.Pick(40, 300))
+	run.Floor("cases_decided", run.Pick(40, 500))
 	run.Floor("expected_collections_checked", run.Pick(100, 800))
-	run.Floor("expected_partitions_checked", run.Pick(60, 500))
-	run.Floor("older_incarnations_checked", run.Pick(15, 120))
-	run.Floor("never_created_objects_checked", run.Pick(15, 120))
-	run.Floor("objects_delivered_only_by_watch", run.Pick(10, 80))
+	run.Floor("expected_partitions_checked", run.Pick(100, 800))
+	run.Floor("older_incarnations_checked", run.Pick(40, 320))
+	run.Floor("never_created_objects_checked", run.Pick(200, 1600))
+	run.Floor("objects_delivered_only_by_watch", run.Pick(15, 120))
 	return run
 }
 
@@ -400,6 +400,8 @@ func (x *c13Exec) exec(i int, w c13Write) {
 	case "createfail":
 		co := x.createColl(t.db, w.Name, false)
 		x.gcColl(co)
+	case "createpending":
+		x.createColl(t.db, w.Name, false) // rootcoord is still in the middle of the creation when the case ends
 	case "create+part":
 		co := x.createColl(t.db, w.Name, true)
 		x.addPart(co, w.Part)
@@ -516,25 +518,14 @@ func c13Case(run *vf.Run, box *etcdbox.Box, plan c13Plan, attempt int) *c13Resul
 		res.inconclusive = "StartRead did not return (watchdog)"
 		return res
 	}
-	emu.Lock()
-	rerrs := append([]string(nil), readerErrs...)
-	emu.Unlock()
 	dec.mu.Lock()
 	startWatch := dec.startWatch
 	order := append([]string(nil), dec.order...)
 	dec.mu.Unlock()
 
-	// sentinel: last writes of the case
-	cat.SetStep(nBoundaries)
-	x.sentC = x.createColl(1, "zz_sentinel", true)
-	x.sentP = x.addPart(x.sentC, "zz_sentinel_part")
-	x.mu.Lock()
-	werrs := append([]string(nil), x.errs...)
-	x.mu.Unlock()
-	if len(werrs) > 0 {
-		res.inconclusive = "a scripted write failed: " + werrs[0]
-		return res
-	}
+	emu.Lock()
+	rerrs := append([]string(nil), readerErrs...)
+	emu.Unlock()
 	if len(rerrs) > 0 {
 		res.inconclusive = "the reader reported an error: " + rerrs[0]
 		return res
@@ -551,29 +542,41 @@ func c13Case(run *vf.Run, box *etcdbox.Box, plan c13Plan, attempt int) *c13Resul
 		res.violations = append(res.violations, vf.Violation{Key: "C13/start-watch-not-called", Desc: fmt.Sprintf("case %d: StartRead returned without error and never called MetaOp.StartWatch: nothing created later can ever be started", plan.Idx), Replay: mkReplay(nil)})
 		return res
 	}
-	// wait (logically) for both sentinels
-	deadline := time.After(watchdog)
-	for {
-		sc, sp := false, false
-		for _, e := range rec.snapshot() {
-			if e.Call == "StartReadCollection" && e.Coll == x.sentC.ID {
-				sc = true
+	// sentinels: the last writes of the case. The sentinel partition is written only after the sentinel collection
+	// was reported, so that the partition's own delivery cannot depend on how the two watchers interleave.
+	waitFor := func(what string, seen func(e recEvent) bool) bool {
+		deadline := time.After(watchdog)
+		for {
+			for _, e := range rec.snapshot() {
+				if seen(e) {
+					return true
+				}
 			}
-			if e.Call == "AddPartition" && e.Part == x.sentP.ID {
-				sp = true
+			select {
+			case <-rec.changed:
+			case <-deadline:
+				res.inconclusive = "sentinel " + what + " not delivered by the watch within the watchdog"
+				return false
 			}
-		}
-		if sc && sp {
-			break
-		}
-		select {
-		case <-rec.changed:
-			continue
-		case <-deadline:
-			res.inconclusive = fmt.Sprintf("sentinel not delivered by the watch (collection %v partition %v) within the watchdog", sc, sp)
-			return res
 		}
 	}
+	cat.SetStep(nBoundaries)
+	x.sentC = x.createColl(1, "zz_sentinel", true)
+	if !waitFor("collection", func(e recEvent) bool { return e.Call == "StartReadCollection" && e.Coll == x.sentC.ID }) {
+		return res
+	}
+	x.sentP = x.addPart(x.sentC, "zz_sentinel_part")
+	if !waitFor("partition", func(e recEvent) bool { return e.Call == "AddPartition" && e.Part == x.sentP.ID }) {
+		return res
+	}
+	x.mu.Lock()
+	werrs := append([]string(nil), x.errs...)
+	x.mu.Unlock()
+	if len(werrs) > 0 {
+		res.inconclusive = "a scripted write failed: " + werrs[0]
+		return res
+	}
+	deadline := time.After(watchdog)
 	// every callback handed to the pool before has returned once all workers are ours at the same time
 	pool := op.VerifWatchPool()
 	n := pool.Cap()
@@ -591,7 +594,6 @@ func c13Case(run *vf.Run, box *etcdbox.Box, plan c13Plan, attempt int) *c13Resul
 		}
 	}()
 	got := 0
-	deadline = time.After(watchdog)
 	for got < n {
 		select {
 		case <-arrived:
@@ -729,6 +731,8 @@ func c13Oracle(res *c13Result, plan c13Plan, x *c13Exec, dec *stepOp, calls []re
 		switch {
 		case strings.Contains(p.Name, "_default"):
 			viol("C13/partition-whose-name-contains-the-default-partition-name-not-added", desc+": no AddPartition call; it is not the default partition, its name only contains \"_default\"", nil)
+		case stepOf(c.Hist, catalog.Created) >= 5:
+			viol("C13/partition-of-collection-created-after-listing-not-added", desc+fmt.Sprintf(": no AddPartition call; its collection reached Created at step %d, so collection and partition were both delivered by the two watchers", stepOf(c.Hist, catalog.Created)), nil)
 		case at <= 6:
 			viol("C13/partition-created-before-partition-listing-not-added", desc+": no AddPartition call", nil)
 		default:
